@@ -28,6 +28,16 @@ NCPU = int(os.environ.get("VERIF_WORKERS", str(os.cpu_count() or 4)))
 TLA_CP = "/opt/veriftools/tla/tla2tools.jar:/opt/veriftools/tla/CommunityModules-deps.jar"
 
 
+def default_heap() -> str:
+    """half of the machine's memory, at most 12 GB, at least 1 GB"""
+    try:
+        kb = int(next(l for l in open("/proc/meminfo") if l.startswith("MemTotal")).split()[1])
+        gb = max(1, min(12, kb // (2 * 1024 * 1024)))
+    except Exception:  # noqa: BLE001
+        gb = 4
+    return f"{gb}g"
+
+
 class MachineryError(Exception):
     """The machinery (not the code under test) failed: exit status 2."""
 
@@ -290,12 +300,13 @@ class TLCResult:
 
 def run_tlc(spec: str, cfg: Path | str, wd: Path, *, workers: int | None = None, timeout: int = 900,
             env: dict | None = None, extra: list[str] | None = None, simulate: str | None = None,
-            coverage: bool = False, java_opts: list[str] | None = None, heap: str = "12g") -> TLCResult:
+            coverage: bool = False, java_opts: list[str] | None = None, heap: str | None = None) -> TLCResult:
     """Run TLC on /verif/spec/<spec>.tla with the given cfg file.  Raises MachineryError on tool failure
     that is neither success nor a property violation."""
     meta = wd / ("meta_" + Path(str(cfg)).stem)
     meta.mkdir(parents=True, exist_ok=True)
     workers = workers or NCPU
+    heap = heap or default_heap()
     cmd = ["timeout", str(timeout), "java", "-XX:+UseParallelGC", f"-Xmx{heap}", "-Xss256m"] + (java_opts or []) + [
         "-cp", TLA_CP, "tlc2.TLC", "-workers", str(workers), "-metadir", str(meta), "-noGenerateSpecTE",
         "-config", str(cfg)]
